@@ -30,16 +30,18 @@ ProfilesOf(t) == IF t = "validate" THEN Profiles ELSE {"STANDARD"}
 FlagOK(t, fs) == ~({"mode_authoring", "mode_executive"} \subseteq fs) /\ ~({"mode_authoring", "mode_developer"} \subseteq fs)
                  /\ ~({"mode_executive", "mode_developer"} \subseteq fs) /\ Cardinality(fs \cap {"fmt_json", "fmt_yaml", "fmt_markdown", "fmt_gbnf"}) <= 1
 
-Init == \E t \in Tools, c \in Contents, s \in Schemas, p \in Profiles :
-          /\ p \in ProfilesOf(t)
+(* the profile is an enumeration spelled in capitals; the tool folds case, so "strict" and "Strict" name the same profile *)
+Spellings(t) == IF t = "validate" THEN {"upper", "lower", "title"} ELSE {"upper"}
+Init == \E t \in Tools, c \in Contents, s \in Schemas, p \in Profiles, sp \in {"upper", "lower", "title"} :
+          /\ p \in ProfilesOf(t) /\ sp \in Spellings(t)
           /\ (t \in {"write_changes", "cli_write_changes"} => c \in {"valid", "invalid"} /\ s \in {"builtin_meta", "unknown"})
-          /\ cl = [tool |-> t, content |-> c, schema |-> s, profile |-> p, flags |-> {}, done |-> FALSE]
+          /\ cl = [tool |-> t, content |-> c, schema |-> s, profile |-> p, spell |-> sp, flags |-> {}, done |-> FALSE]
 Choose == /\ ~cl.done
           /\ \E fs \in SUBSET FlagsOf(cl.tool) : /\ Cardinality(fs) <= MaxFlags /\ FlagOK(cl.tool, fs)
                                                  /\ cl' = [cl EXCEPT !.flags = fs, !.done = TRUE]
 Next == Choose
 EmitCase == IF cl.done THEN PrintT(ToJson([tool |-> cl.tool, content |-> cl.content, schema |-> cl.schema,
-                                           profile |-> cl.profile, flags |-> cl.flags])) ELSE TRUE
+                                           profile |-> cl.profile, spell |-> cl.spell, flags |-> cl.flags])) ELSE TRUE
 
 (* ---------------------------------------------------------------------------------- *)
 (* the decision lattice; c = the call (flags as a set), o = the observed envelope       *)
